@@ -245,10 +245,66 @@ def scen_serve():
     return bad
 
 
+def scen_proxy_refs():
+    """the proxy side: _incref takes one reference and registers the finalizer; _decref gives it back unless the manager
+    is known to be shut down -- also for a proxy without a manager object (state None: a pickled copy, a forked child)"""
+    bad = []
+    sent = []
+    real_dispatch = M.dispatch
+    M.dispatch = lambda c, id, name, args=(), kwds={}: sent.append((c, id, name, args))
+    try:
+        for label, state_value, want in (('no manager object', None, True), ('manager started', M.State.STARTED, True),
+                                         ('manager shut down', M.State.SHUTDOWN, False), ('manager not started', M.State.INITIAL, False)):
+            del sent[:]
+            token = M.Token('list', ('addr', 1), 'ident-1')
+            state = None
+            if state_value is not None:
+                state = M.State()
+                state.value = state_value
+            tls = threading.local()
+            closed = []
+
+            class Conn:
+                def close(self):
+                    closed.append(1)
+            tls.connection = Conn()
+            idset = {'ident-1'}
+            conns = []
+            M.BaseProxy._decref(token, b'key', state, tls, idset, lambda addr, authkey=None: conns.append((addr, authkey)) or 'conn')
+            got = [(name, args) for (_, _, name, args) in sent]
+            if (got == [('decref', ('ident-1',))]) != want or (not want and got):
+                bad.append('releasing a proxy (%s): requests sent %r, connections made %r (expected %s decref)' % (
+                    label, got, conns, 'one' if want else 'no'))
+            if want and conns != [(('addr', 1), b'key')]:
+                bad.append('releasing a proxy (%s): connected as %r' % (label, conns))
+            if idset or not closed or hasattr(tls, 'connection'):
+                bad.append('releasing the last proxy (%s): idset %r, thread connection closed %r, still set %s' % (
+                    label, idset, closed, hasattr(tls, 'connection')))
+        # _incref
+        del sent[:]
+        p = M.BaseProxy.__new__(M.BaseProxy)
+        p._token = M.Token('list', ('addr', 1), 'ident-2')
+        p._id, p._authkey, p._manager, p._tls, p._idset = 'ident-2', b'key', None, threading.local(), set()
+        conns = []
+        p._Client = lambda addr, authkey=None: conns.append((addr, authkey)) or 'conn'
+        p._incref()
+        if [(n, a) for (_, _, n, a) in sent] != [('incref', ('ident-2',))] or conns != [(('addr', 1), b'key')] or p._idset != {'ident-2'}:
+            bad.append('_incref: requests %r, connections %r, idset %r' % (sent, conns, p._idset))
+        fin = p._close
+        if fin._callback is not M.BaseProxy._decref and getattr(fin._callback, '__func__', fin._callback) is not M.BaseProxy._decref:
+            bad.append('_incref registered %r as finalizer' % (fin._callback,))
+        elif fin._args[0] is not p._token or fin._args[2] is not None or fin._args[4] is not p._idset:
+            bad.append('_incref registered the finalizer with %r' % (fin._args,))
+        fin.cancel()
+    finally:
+        M.dispatch = real_dispatch
+    return bad
+
+
 def main():
     data = json.load(open(sys.argv[1]))
     print('replay of %s / %s' % (data['function'], data['obligation']))
-    bad = scen_tables() + scen_handle() + scen_serve()
+    bad = scen_tables() + scen_handle() + scen_serve() + scen_proxy_refs()
     for b in bad[:8]:
         print('  violation on real code: ' + b)
     print('REPRODUCED on real code' if bad else 'not reproduced')
